@@ -817,6 +817,197 @@ fn staking_call(u: &Uni, e: &str, role: &str) -> Option<Call> {
     }
 }
 
+// ---------------------------------------------------------------------------------------
+// energy-factory + token-unstake + fees-collector + lkmex-transfer: one deployment, four
+// contracts under test (follows locked-asset/token-unstake/tests/token_unstake_setup,
+// energy-integration/fees-collector/tests/fees_collector_test_setup, lkmex_transfer_tests)
+// ---------------------------------------------------------------------------------------
+const BASE: &[u8] = b"MEX-abcdef";
+
+fn n_energy(amount: u64, epoch: u64, tokens: u64) -> Vec<u8> {
+    let mut v = n_big(&b(amount));
+    // BigInt nested encoding is signed: keep the sign bit clear
+    if amount > 0 && v[4] & 0x80 != 0 {
+        let mut w = ((v.len() - 4 + 1) as u32).to_be_bytes().to_vec();
+        w.push(0);
+        w.extend_from_slice(&v[4..]);
+        v = w;
+    }
+    v.extend_from_slice(&epoch.to_be_bytes());
+    v.extend_from_slice(&n_big(&b(tokens)));
+    v
+}
+
+fn build_locked(vm: &mut Vm, c: &str, variant: &str, amt: u64) -> Uni {
+    let mut bd = Builder::new(vm);
+    let plain_wsc = bd.ad("wsc");
+    bd.a.insert("wsc_plain".into(), plain_wsc.clone());
+    bd.deploy("energy", "owner", "energy");
+    bd.deploy("unstake", "owner", "unstake");
+    bd.deploy("fees", "owner", "fees");
+    bd.deploy("lkmex", "owner", "lkmex");
+    let (energy, unstake, fees, lkmex) = (bd.ad("energy"), bd.ad("unstake"), bd.ad("fees"), bd.ad("lkmex"));
+    // the "whitelisted contract" role is the contract each target really trusts
+    match c {
+        "energy" => { bd.a.insert("wsc".into(), unstake.clone()); }
+        "unstake" => { bd.a.insert("wsc".into(), energy.clone()); }
+        _ => {}
+    }
+    // energy factory: old factory address := token-unstake (as in the repo's unstake tests)
+    let mut args = vec![BASE.to_vec(), LEGACY.to_vec(), a_addr(&unstake), a_u64(0)];
+    args.extend(lock_options());
+    let _ = bd.ok("owner", "energy", "init", args, &[]);
+    if variant != "notoken" {
+        bd.store("energy", b"lockedTokenId", LOCKED.to_vec());
+    }
+    bd.vm.set_roles(&energy, LOCKED, &["ESDTRoleNFTCreate", "ESDTRoleNFTAddQuantity", "ESDTRoleNFTBurn", "ESDTTransferRole"]);
+    bd.vm.set_roles(&energy, BASE, &["ESDTRoleLocalMint", "ESDTRoleLocalBurn"]);
+    bd.vm.set_roles(&energy, LEGACY, &["ESDTRoleNFTBurn"]);
+    bd.vm.set_roles(&unstake, BASE, &["ESDTRoleLocalBurn"]);
+    bd.vm.set_roles(&unstake, LOCKED, &["ESDTRoleNFTBurn"]);
+    bd.vm.set_roles(&fees, LOCKED, &["ESDTRoleNFTBurn"]);
+    // while still paused: mark `user` as having its old-token energy updated
+    let _ = bd.ok("owner", "energy", "setEnergyForOldTokens", vec![a_addr(&bd.ad("user")), vec![], vec![]], &[]);
+    let _ = bd.ok("owner", "energy", "unpause", vec![], &[]);
+    let _ = bd.ok("owner", "energy", "setTokenUnstakeAddress", vec![a_addr(&unstake)], &[]);
+    let _ = bd.ok("owner", "unstake", "init", vec![a_u64(10), a_addr(&energy), a_u64(5000), a_addr(&fees)], &[]);
+    let _ = bd.ok("owner", "fees", "init", vec![LOCKED.to_vec(), a_addr(&energy)], &[]);
+    let _ = bd.ok("owner", "fees", "addKnownContracts", vec![a_addr(&unstake), a_addr(&plain_wsc)], &[]);
+    let _ = bd.ok("owner", "fees", "addKnownTokens", vec![BASE.to_vec(), FIRST.to_vec()], &[]);
+    let _ = bd.ok("owner", "fees", "setLockingScAddress", vec![a_addr(&energy)], &[]);
+    let _ = bd.ok("owner", "fees", "setLockEpochs", vec![a_u64(1440)], &[]);
+    let _ = bd.ok("owner", "fees", "addSCAddressToWhitelist", vec![a_addr(&plain_wsc)], &[]);
+    let _ = bd.ok("owner", "lkmex", "init", vec![a_addr(&energy), LOCKED.to_vec(), a_u64(4), a_u64(6)], &[]);
+    let _ = bd.ok("owner", "lkmex", "addAdmin", vec![a_addr(&bd.ad("admin"))], &[]);
+    for a in [&fees, &plain_wsc, &unstake] {
+        let _ = bd.ok("owner", "energy", "addSCAddressToWhitelist", vec![a_addr(a)], &[]);
+    }
+    let _ = bd.ok("owner", "energy", "addToTokenTransferWhitelist", vec![a_addr(&lkmex), a_addr(&plain_wsc), a_addr(&unstake)], &[]);
+    let big = BigUint::from(10u64).pow(15);
+    bd.fund_all(BASE, &big);
+    bd.fund_all(FIRST, &big);
+    bd.vm.set_esdt(&unstake, BASE, &big);
+    bd.vm.set_esdt(&energy, BASE, &big);
+    bd.vm.set_esdt(&plain_wsc, BASE, &big);
+    bd.vm.set_esdt(&plain_wsc, FIRST, &big);
+    if variant != "notoken" {
+        bd.vm.set_epoch(1);
+        let unit = b(1_000_000 + amt);
+        let mut lockers: Vec<String> = ROLES.iter().map(|r| r.to_string()).collect();
+        lockers.push("wsc_plain".into());
+        lockers.push("unstake".into());
+        lockers.dedup();
+        for r in lockers.iter() {
+            for (k, ep, mult) in [("lk360", 360u64, 1u32), ("lk720", 720, 3), ("lk1440", 1440, 4)] {
+                let _ = bd.ok(r, "energy", "lockTokens", vec![a_u64(ep)], &[esdt(BASE, 0, &(&unit * mult))]);
+                let n = last_nonce(&bd, r, LOCKED);
+                bd.n.insert(k.to_string(), n);
+            }
+            let _ = bd.ok(r, "fees", "claimRewards", vec![], &[]);
+        }
+        let _ = bd.ok("wsc_plain", "fees", "depositSwapFees", vec![], &[esdt(BASE, 0, &b(7_000_000))]);
+        bd.vm.set_epoch(2);
+        let n1440 = bd.n["lk1440"];
+        for r in ROLES {
+            let _ = bd.ok(r, "energy", "unlockEarly", vec![], &[esdt(LOCKED, n1440, &unit)]);
+        }
+        bd.vm.set_epoch(400);
+        let n720 = bd.n["lk720"];
+        for r in ROLES {
+            let me = bd.ad(r);
+            let _ = bd.ok(r, "lkmex", "lockFunds", vec![a_addr(&me)], &[esdt(LOCKED, n720, &unit)]);
+        }
+        // the energy factory itself holds tokens it can "deposit" when it plays the caller role
+        let (f, t) = (bd.ad("user"), energy.clone());
+        bd.vm.move_esdt(&f, &t, LOCKED, n1440, &unit);
+        bd.vm.set_epoch(420);
+        bd.n.insert("unit".into(), 1_000_000 + amt);
+    }
+    bd.n.insert("amt".into(), 1000 + amt % 1000);
+    bd.finish(c)
+}
+
+fn locked_call(u: &Uni, c: &str, e: &str, role: &str) -> Option<Call> {
+    let amt = b(u.num("amt"));
+    let me = u.addr(role);
+    let lk = |k: &str| -> TxTokenTransfer { esdt(LOCKED, u.num(k), &amt) };
+    let energy0 = || n_energy(0, 420, 0);
+    match (c, e) {
+        ("energy", "lockTokens") => callp(vec![a_u64(360)], vec![esdt(BASE, 0, &amt)]),
+        ("energy", "unlockTokens") => callp(vec![], vec![lk("lk360")]),
+        ("energy", "extendLockPeriod") => callp(vec![a_u64(1440), a_addr(me)], vec![lk("lk720")]),
+        ("energy", "adjustUserEnergy") => call(vec![a_addr(u.addr("user")), vec![], vec![]]),
+        ("energy", "issueLockedToken") => Some(Call { args: vec![b"Locked".to_vec(), b"LOCKED".to_vec(), a_u64(18)], pay: vec![], egld: b(50_000_000) }),
+        ("energy", "addLockOptions") => call(vec![a_u64(2880), a_u64(9000)]),
+        ("energy", "unlockEarly") => callp(vec![], vec![lk("lk1440")]),
+        ("energy", "reduceLockPeriod") => callp(vec![a_u64(720)], vec![lk("lk1440")]),
+        ("energy", "setTokenUnstakeAddress") => call(vec![a_addr(u.addr("unstake"))]),
+        ("energy", "revertUnstake") => call(vec![a_addr(u.addr("user")), energy0()]),
+        ("energy", "setEnergyForOldTokens") => call(vec![a_addr(u.addr("fresh")), vec![], vec![]]),
+        ("energy", "updateEnergyAfterOldTokenUnlock") => call(vec![a_addr(u.addr("user")), vec![0, 0, 0, 0], vec![0, 0, 0, 0]]),
+        ("energy", "updateEnergyAfterOldTokenUnlock@sc") => call(vec![a_addr(u.addr("fresh_sc")), vec![0, 0, 0, 0], vec![0, 0, 0, 0]]),
+        ("energy" | "fees", "pause" | "unpause") => call(vec![]),
+        ("energy", "setTransferRoleLockedToken") => call(vec![]),
+        ("energy", "setBurnRoleLockedToken") => call(vec![a_addr(u.addr("fresh_sc"))]),
+        ("energy", "mergeTokens") => callp(vec![], vec![lk("lk720"), lk("lk1440")]),
+        ("energy", "mergeTokens@orig") => callp(vec![a_addr(me)], vec![lk("lk720"), lk("lk1440")]),
+        ("energy", "lockVirtual") => call(vec![BASE.to_vec(), a_big(&amt), a_u64(360), a_addr(me), a_addr(me)]),
+        ("energy" | "fees", "addSCAddressToWhitelist") => call(vec![a_addr(u.addr("fresh_sc"))]),
+        ("energy" | "fees", "removeSCAddressFromWhitelist") => call(vec![a_addr(u.addr("wsc_plain"))]),
+        ("energy", "addToTokenTransferWhitelist") => call(vec![a_addr(u.addr("fresh_sc"))]),
+        ("energy", "removeFromTokenTransferWhitelist") => call(vec![a_addr(u.addr("wsc_plain"))]),
+        ("energy", "setUserEnergyAfterLockedTokenTransfer") => call(vec![a_addr(u.addr("user")), energy0()]),
+        ("energy", "getPenaltyAmount") => call(vec![a_u64(1000), a_u64(720), a_u64(360)]),
+        ("unstake", "claimUnlockedTokens" | "cancelUnbond") => call(vec![]),
+        ("unstake", "depositUserTokens") => callp(vec![a_addr(u.addr("user"))], vec![lk("lk1440"), esdt(BASE, 0, &amt)]),
+        ("unstake", "depositFees") => callp(vec![], vec![lk("lk1440")]),
+        ("unstake", "setFeesBurnPercentage") => call(vec![a_u64(4000)]),
+        ("unstake" | "fees" | "lkmex", "setEnergyFactoryAddress") | ("fees", "setLockingScAddress") => call(vec![a_addr(u.addr("energy"))]),
+        ("fees", "claimRewards" | "claimBoostedRewards") => call(vec![]),
+        ("fees", "claimRewards@orig") => call(vec![a_addr(u.addr("user"))]),
+        ("fees", "claimBoostedRewards@other") => call(vec![a_addr(u.addr(if role == "user" { "agent" } else { "user" }))]),
+        ("fees", "addKnownContracts") => call(vec![a_addr(u.addr("fresh_sc"))]),
+        ("fees", "removeKnownContracts") => call(vec![a_addr(u.addr("wsc_plain"))]),
+        ("fees", "addKnownTokens") => call(vec![THIRD.to_vec()]),
+        ("fees", "removeKnownTokens") => call(vec![FIRST.to_vec()]),
+        ("fees", "updateEnergyForUser") => call(vec![a_addr(u.addr("fresh"))]),
+        ("fees", "depositSwapFees") => callp(vec![], vec![esdt(BASE, 0, &amt)]),
+        ("fees", "setLockedTokensPerBlock") => call(vec![a_u64(1)]),
+        ("fees", "setLockEpochs") => call(vec![a_u64(720)]),
+        ("fees", "getAccumulatedFees") => call(vec![a_u64(1), BASE.to_vec()]),
+        ("lkmex", "withdraw") => call(vec![a_addr(me)]),
+        ("lkmex", "cancelTransfer") => call(vec![a_addr(u.addr("user")), a_addr(u.addr("user"))]),
+        ("lkmex", "lockFunds") => callp(vec![a_addr(u.addr("fresh"))], vec![lk("lk720")]),
+        ("lkmex", "addAdmin") => call(vec![a_addr(u.addr("fresh"))]),
+        ("lkmex", "removeAdmin") => call(vec![a_addr(u.addr("admin"))]),
+        ("lkmex", "updateOwnerOrAdmin") => call(vec![a_addr(u.addr("admin"))]),
+        _ => None,
+    }
+}
+
+// ---------------------------------------------------------------------------------------
+// permissions hub (contract under test)
+// ---------------------------------------------------------------------------------------
+fn build_hub(vm: &mut Vm) -> Uni {
+    let mut bd = Builder::new(vm);
+    hub_setup(&mut bd);
+    for r in ROLES {
+        let _ = bd.ok(r, "hub", "whitelist", vec![a_addr(&bd.ad("fresh2"))], &[]);
+    }
+    bd.finish("hub")
+}
+
+fn hub_call(u: &Uni, e: &str, role: &str) -> Option<Call> {
+    match e {
+        "whitelist" => call(vec![a_addr(u.addr("fresh"))]),
+        "removeWhitelist" => call(vec![a_addr(u.addr("fresh2"))]),
+        "blacklist" => call(vec![a_addr(u.addr("fresh"))]),
+        "removeBlacklist" => call(vec![a_addr(u.addr("blacklisted"))]),
+        "isWhitelisted" => call(vec![a_addr(u.addr("user")), a_addr(u.addr(role))]),
+        _ => None,
+    }
+}
+
 // =======================================================================================
 // the world
 // =======================================================================================
@@ -860,6 +1051,15 @@ fn class_of(abi: &ContractAbi, c: &str, e: &str) -> Class {
         ("farm" | "fwlr" | "staking", "enterFarmOnBehalf" | "claimRewardsOnBehalf" | "stakeFarmOnBehalf") => Some(OnBehalfHub),
         ("staking", "stakeFarmThroughProxy" | "claimRewardsWithNewValue" | "unstakeFarmThroughProxy") => Some(ContractOnly),
         ("farm" | "fwlr" | "staking" | "fees", "updateEnergyForUser") => Some(Open),
+        ("energy", "updateEnergyAfterOldTokenUnlock") if e.contains("@sc") => Some(Open),
+        ("energy", "lockTokens" | "unlockTokens" | "unlockEarly" | "reduceLockPeriod" | "mergeTokens" | "migrateOldTokens") => Some(UserFunds),
+        ("energy", "extendLockPeriod" | "revertUnstake" | "updateEnergyAfterOldTokenUnlock" | "lockVirtual" | "setUserEnergyAfterLockedTokenTransfer") => Some(ContractOnly),
+        ("fees", "claimRewards" | "claimBoostedRewards") => Some(UserFunds),
+        ("fees", "depositSwapFees") => Some(ContractOnly),
+        ("unstake", "depositUserTokens" | "depositFees") => Some(ContractOnly),
+        ("unstake", "claimUnlockedTokens" | "cancelUnbond") => Some(Open),
+        ("lkmex", "withdraw" | "lockFunds") => Some(Open),
+        ("hub", "whitelist" | "removeWhitelist") => Some(Open),
         _ => None,
     };
     if let Some(k) = explicit {
@@ -878,18 +1078,21 @@ fn variant_of(c: &str, e: &str) -> &'static str {
         ("pair", "setLpTokenIdentifier") => "nolp",
         ("farm", "compoundRewards" | "compoundRewards@orig") => "same",
         ("farm" | "fwlr" | "staking", "registerFarmToken") => "notoken",
+        ("energy", "issueLockedToken") => "notoken",
         ("farm" | "fwlr" | "staking", "collectUndistributedBoostedRewards") => "late",
         _ => "std",
     }
 }
 
 /// endpoint variants exercised in addition to the plain ABI endpoints
-const VARIANTS: [(&str, &str); 16] = [
+const VARIANTS: [(&str, &str); 20] = [
     ("pair", "addInitialLiquidity@adder"),
     ("farm", "enterFarm@orig"), ("farm", "claimRewards@orig"), ("farm", "compoundRewards@orig"), ("farm", "exitFarm@orig"),
     ("farm", "mergeFarmTokens@orig"), ("farm", "claimBoostedRewards@other"),
     ("fwlr", "enterFarm@orig"), ("fwlr", "claimRewards@orig"), ("fwlr", "exitFarm@orig"), ("fwlr", "mergeFarmTokens@orig"),
     ("fwlr", "claimBoostedRewards@other"),
+    ("energy", "mergeTokens@orig"), ("energy", "updateEnergyAfterOldTokenUnlock@sc"),
+    ("fees", "claimRewards@orig"), ("fees", "claimBoostedRewards@other"),
     ("staking", "stakeFarm@orig"), ("staking", "claimRewards@orig"), ("staking", "unstakeFarm@orig"), ("staking", "claimBoostedRewards@other"),
 ];
 
@@ -921,6 +1124,8 @@ impl World {
             "pair" => build_pair(&mut self.vm, variant, self.amt),
             "farm" | "fwlr" => build_farm(&mut self.vm, c, variant, self.amt),
             "staking" => build_staking(&mut self.vm, variant, self.amt),
+            "energy" | "unstake" | "fees" | "lkmex" => build_locked(&mut self.vm, c, variant, self.amt),
+            "hub" => build_hub(&mut self.vm),
             _ => panic!("no universe for {c}"),
         };
         self.bases.insert(key, u.clone());
@@ -961,6 +1166,8 @@ impl World {
             "pair" => pair_call(u, e, role),
             "farm" | "fwlr" => farm_call(u, c, e, role, variant_of(c, e) == "same"),
             "staking" => staking_call(u, e, role),
+            "energy" | "unstake" | "fees" | "lkmex" => locked_call(u, c, e, role),
+            "hub" => hub_call(u, e, role),
             _ => None,
         };
         if specific.is_some() {
